@@ -26,6 +26,8 @@ def run(tier):
     chk.configs = cfgs
     for cfgname in cfgs:
         prog = Program.load(which=('SRC',), cfg=cfgname)
+        from ..rules import symbolic as _sym
+        _sym.dfs_twin_rule(chk, 'C02.dfs', prog, [q + 'column_dfs' for q in 'sdcz'], cfgname)
         chk.clause('C02.D1', 'pivot rule of ?pivotL')
         chk.clause('C02.D2', 'perm_r discipline and inverse permutations in ?gstrf')
         r11_kinds.run(chk, 'C02.kinds', prog, cfgname, floor=1900)
@@ -45,6 +47,7 @@ def run(tier):
         n1 = n2 = 0
         for p in _drv.PRECS:
             n1 += pivot.run(chk, 'C02.D1', prog, p, cfgname)
+            pivot.pivrow_in_sync_rule(chk, 'C02.D1', prog, p, cfgname)
             n2 += factor_tail.run(chk, 'C02.D2', prog, p, cfgname)
             f = prog.func(p + 'gstrf')
             r7_perm.check_inverse(chk, 'C02.D2', f, 'iperm_c', 'perm_c', cfgname)
